@@ -67,6 +67,10 @@ def run(P, rep, tier):
     r2_provenance(P, rep, ctx)
     r3_typestate(P, rep, ctx)
     r4_overlay_writes(P, rep, ctx)
+    from . import c11
+
+    # the manifest sidecar of a committed container is only replaced after a successful commit
+    c11.r2_manifest_after_commit(P, rep, ctx, rule="C02.R6")
     if tier == "thorough":
         r1_sinks(P, rep, ctx, whole_package=True)
     rep.floor("C02.R1", 9, "file-system sinks in ih5/")
